@@ -28,6 +28,20 @@ impl BoundSet {
         use Bound::*;
         use Predicate::*;
 
+        // Desugaring (`^`, `~`, `1.x`, `>1.2`, hyphen ranges) may have incremented a
+        // component that already was MAX_SAFE_INTEGER. No version lies above such a
+        // bound, so it is the same as a bound at the greatest version: exclusive
+        // as a lower bound, inclusive as an upper bound.
+        let greatest = || Version::from((MAX_SAFE_INTEGER, MAX_SAFE_INTEGER, MAX_SAFE_INTEGER));
+        let lower = match lower {
+            Lower(p) => Lower(p.carry().unwrap_or_else(|| Excluding(greatest()))),
+            bound => bound,
+        };
+        let upper = match upper {
+            Upper(p) => Upper(p.carry().unwrap_or_else(|| Including(greatest()))),
+            bound => bound,
+        };
+
         match (lower, upper) {
             (Lower(Excluding(v1)), Upper(Including(v2)))
             | (Lower(Including(v1)), Upper(Excluding(v2)))
@@ -223,6 +237,36 @@ impl Predicate {
             Excluding(v) => Including(v),
             Including(v) => Excluding(v),
             Unbounded => Unbounded,
+        }
+    }
+
+    // Carries a component above MAX_SAFE_INTEGER into the next one, so that the
+    // bound stays a version that can be printed and parsed back. Returns `None`
+    // if the bound lies above every version.
+    fn carry(self) -> Option<Self> {
+        use Predicate::*;
+
+        fn carry_version(mut v: Version) -> Option<Version> {
+            if v.patch > MAX_SAFE_INTEGER {
+                v.patch = 0;
+                v.minor += 1;
+            }
+            if v.minor > MAX_SAFE_INTEGER {
+                v.minor = 0;
+                v.patch = 0;
+                v.major += 1;
+            }
+            if v.major > MAX_SAFE_INTEGER {
+                None
+            } else {
+                Some(v)
+            }
+        }
+
+        match self {
+            Excluding(v) => carry_version(v).map(Excluding),
+            Including(v) => carry_version(v).map(Including),
+            Unbounded => Some(Unbounded),
         }
     }
 }
